@@ -95,7 +95,7 @@ CONF = {
         "rule": "cases = programs with the cancel event (context cancel or Shutdown) (a) as a step anywhere in a sequential program, (b) inside a concurrent phase of 1-3 client goroutines, (c) fired from inside a library hook point (flush of a bar, bar render, render begin/end, heap-manager request, width sent/collected, bar exit) at occurrence 1-12; all refresh modes, 1-6 bars with shutdown-listening decorators under 0-3 wrapper layers, notifier configured or not; non-trivial = the cancel lands after >=1 Add with >=1 listener and an unfinished bar (or inside the library); distinct by FNV-64 of the scenario JSON",
         "assumptions": GO_ASSUME + SCHED_ASSUME + ["the set handed to the notifier is compared exactly only for clocked runs (frame model); otherwise it must be duplicate-free, inside the container and contain every bar that was still running and displayed", "hangs of runs that were never cancelled are left to C01"],
         "tiers": tiers(8, 1500, 16, 20000),
-        "require_classes": ["refresh:manual", "refresh:autoinj", "refresh:autort", "refresh:none", "cancel-step", "cancel-in-concurrent-phase", "cancel-inside:flush.bar", "cancel-inside:bar.render", "cancel-inside:wc.sent", "cancel-inside:bar.exit", "listeners", "notifier", "notifier-exact", "cancel-with-render-delay", "delay-never-released"],
+        "require_classes": ["refresh:manual", "refresh:autoinj", "refresh:autort", "refresh:none", "cancel-step", "cancel-in-concurrent-phase", "cancel-inside:flush.bar", "cancel-inside:bar.render", "cancel-inside:wc.sent", "cancel-inside:bar.exit", "listeners", "notifier", "notifier-exact", "cancel-with-render-delay", "delay-never-released", "output-failed"],
     },
     "C13": {
         "rule": "cases = concurrent scenarios with 1-4 client goroutines in 1-2 phases whose operations are ~50% Progress.Write calls with unique newline-terminated payloads (0-40 byte bodies) issued from a buffer that is overwritten after the call returns, racing with render cycles (real ticker, injected ticks, manual), completions, cancel/Shutdown (35%), the final render and Wait; plus 0-3 writes after Wait; non-trivial = >=1 successful write that overlapped a render cycle by event numbers, or a write that lost the race with the done event; distinct by FNV-64 of the scenario JSON",
